@@ -129,7 +129,7 @@ def harness_json(case):
     for i, inp in enumerate(case['inputs']):
         d = {'chunks': [x.hex() for x in chunk(inp['data'], inp.get('chunking'))]}
         if 'name' in inp: d['name'] = inp['name']
-        for k in ('fail_at', 'fail_kind', 'interrupts', 'budget'):
+        for k in ('fail_at', 'fail_kind', 'fail_once', 'interrupts', 'budget'):
             if inp.get(k) is not None: d[k] = inp[k]
         if inp.get('endless'): d['endless'] = inp['endless'].hex()
         inputs.append(d)
